@@ -100,6 +100,27 @@ def sweepOp : Op := fun args =>
     s!"M:n={hi - lo} nsbad=0 late={lateN} firstlate={firstLate}"
   | _ => badArgs
 
-def ops : OpTable := [("enc", encOp), ("dec", decOp), ("rt", rtOp), ("mono", monoOp), ("sweep1s", sweepOp)]
+/-- `fop op a b` : one hardware float64 operation on two normal operands given as bit patterns,
+    against `rne` of the exact result -/
+def fopOp : Op := fun args =>
+  match args with
+  | [op, sa, sb] =>
+    match parseNat sa, parseNat sb with
+    | some a, some b =>
+      match f64ToRat a, f64ToRat b with
+      | some x, some y =>
+        let exact : Option Rat := match op with
+          | "add" => some (x + y) | "sub" => some (x - y) | "mul" => some (x * y) | "div" => some (x / y)
+          | _ => none
+        match exact with
+        | some z => match ratToF64 (rne z) with
+          | some bits => s!"M:{bits}"
+          | none => "M:unsupported"
+        | none => badArgs
+      | _, _ => "M:unsupported"
+    | _, _ => badArgs
+  | _ => badArgs
+
+def ops : OpTable := [("fop", fopOp), ("enc", encOp), ("dec", decOp), ("rt", rtOp), ("mono", monoOp), ("sweep1s", sweepOp)]
 
 end Mkts.Driver.Ticks
